@@ -116,9 +116,12 @@ prop("C09", module="MW.Props.C09", title="ibc-hooks sender derivation",
      assumptions=["SHA-256 collision resistance (the no-impersonation theorem is a reduction to a collision)",
                   "the specification is osmosis x/ibc-hooks DeriveIntermediateSender + cosmos-sdk address.Hash; an independent Python implementation (hashlib + reference bech32) is compared on every generated triple"])
 
-LEDGER_NOTE = ("the equation about the chain's bank / IBC ledgers itself is evaluated on every run by the executable monitor on the "
-               "simulator's ledgers and the real contract's answers; the Lean theorems cover the contract side over all histories "
-               "(see the *_partial theorems and DESIGN.md §6)")
+LEDGER_NOTE = ("the equations about the chain's bank / token-factory / IBC ledgers (N2, L1, L2, F1, P2) are proved on the Lean chain "
+               "model for every history that satisfies the honest-environment conditions EvOK (MW/Inv/WorldInv.lean: no transaction "
+               "signed by the contract's own address, no stake on behalf of the contract, the operator does not re-route the channel, "
+               "re-denominate the staked asset, move the staker address or make the contract its own treasury, no forced recovery, "
+               "callbacks only for packets in flight); the same equations are evaluated on every run by the executable monitors on an "
+               "independent Python chain and the real contract's answers")
 
 prop("C01", module="MW.Props.C01", title="staked-asset accounting fully backed", builds=["osmosis", "miniwasm"],
      variants=["liquid_stake", "receive_rewards", "submit_batch", "recover_pending_ibc_transfers", "reply", "sudo", "resume_contract"],
